@@ -618,4 +618,99 @@ theorem add_spec (hpage : PageSpec) : AddSpec addFuel := by
     simp only [hc, Bool.false_eq_true, if_false]
     exact genBuf_spec hpage s cap grow i fuel hf1
 
+/-! ### `AddWithCount`, `AddBin` -/
+
+theorem ROk_of_toRes (cap : Int) (r : Res GP) (m : Option PStore)
+    (h : r = toRes (fun s' => toGen s' cap) m) : ROk r m := by
+  subst h
+  cases m with
+  | none => rfl
+  | some s' => exact ⟨_, rfl, cap, rfl⟩
+
+/-- `pages[k][line] += c` in the generated code (the page read through its alias, written back) -/
+theorem addAtPage_gen (s : PStore) (cap : Int) (k line : Nat) (c : Rat) (hk : k < s.pages.size) :
+    optR (GoSem.idx (s.pages.getD k #[]).toList (line : Int)) (fun t =>
+      optR (GoSem.set (s.pages.getD k #[]).toList (line : Int) (t + c)) (fun pg =>
+        optR (GoSem.set (toGen s cap).pages (k : Int) pg) (fun t2 =>
+          .ok ({ buffer := (toGen s cap).buffer, bufferCap := (toGen s cap).bufferCap,
+                 bufferCompactionTriggerLen := (toGen s cap).bufferCompactionTriggerLen, pages := t2,
+                 minPageIndex := (toGen s cap).minPageIndex, pageLenLog2 := (toGen s cap).pageLenLog2,
+                 pageLenMask := (toGen s cap).pageLenMask } : GP))))
+      = toRes (fun s' => toGen s' cap) (s.addAtPage k line c) := by
+  rw [addAt_toList]
+  unfold PStore.addAtPage DStore.addAt
+  by_cases hl : line < (s.pages.getD k #[]).size
+  · rw [if_pos (by omega), if_pos ⟨hk, hl⟩]
+    simp only [Option.map_some, optR_some, Int.toNat_natCast, toGen_pages]
+    rw [set_pagesL s k _ (by omega) (by omega)]
+    rfl
+  · rw [if_neg (by omega), if_neg (fun h => hl h.2)]
+    rfl
+
+theorem addWithCount_spec (hpage : PageSpec) : AddWithCountSpec addFuel := by
+  intro s cap grow i c fuel hf
+  unfold BufferedPaginatedStore.AddWithCount PStore.addWithCount
+  by_cases h0 : c = 0
+  · simp only [h0, beq_self_eq_true, if_true]
+    exact ⟨_, rfl, cap, rfl⟩
+  · rw [if_neg (by simpa using h0), if_neg h0]
+    by_cases h1 : c = 1
+    · rw [if_pos (by simpa using h1), if_pos h1]
+      have := add_spec hpage s cap grow i fuel hf
+      cases hm : s.addUnit i (decide ((s.buffer.length : Int) = cap)) with
+      | none =>
+        rw [hm] at this
+        have hp : BufferedPaginatedStore.Add fuel grow (toGen s cap) i = .panic := this
+        rw [hp]; rfl
+      | some s' =>
+        rw [hm] at this
+        obtain ⟨g', hg, hrel⟩ := this
+        rw [hg]
+        exact ⟨g', rfl, hrel⟩
+    · rw [if_neg (by simpa using h1), if_neg h1]
+      have hf2 : pageFuel s (s.pageIndex i) ≤ fuel := by unfold addFuel at hf; omega
+      rw [gen_pageIndex]
+      dsimp only
+      rw [hpage s cap _ true fuel hf2]
+      cases hpg : s.page (s.pageIndex i) true with
+      | none => rfl
+      | some r =>
+        obtain ⟨s1, k?⟩ := r
+        obtain ⟨hlog, hslot⟩ := page_props s s1 _ true k? hpg
+        simp only [toRes_some, Res.bind_ok, gen_lineIndex]
+        cases k? with
+        | none =>
+          have : GoSem.idx (pageOf s1 none) ((s1.lineIndex i : Nat) : Int) = none := by
+            unfold GoSem.idx pageOf; rw [if_neg (by omega)]; rfl
+          rw [this]
+          rfl
+        | some k =>
+          obtain ⟨hk1, hk2, hk3⟩ := hslot k rfl
+          have hpo : pageOf s1 (some k) = (s1.pages.getD k #[]).toList := rfl
+          have hk3' : s.pageIndex i - (toGen s1 cap).minPageIndex = (k : Int) := by
+            rw [toGen_minPageIndex]; omega
+          rw [hpo, hk3', addAtPage_gen s1 cap k _ c hk1]
+          simp only [Option.bind_eq_bind, Option.bind_some]
+          cases s1.addAtPage k (s1.lineIndex i) c with
+          | none => rfl
+          | some s2 => exact ⟨_, rfl, cap, rfl⟩
+
+/-- `AddBin` is `AddWithCount` on the fields of the bin -/
+theorem addBin_spec (hpage : PageSpec) (s : PStore) (cap : Int) (grow : Int → Int → Int) (bin : Bin)
+    (fuel : Nat) (hf : addFuel s bin.index ≤ fuel) :
+    ROk (BufferedPaginatedStore.AddBin fuel grow (toGen s cap) bin)
+      (s.addWithCount bin.index bin.count (decide ((s.buffer.length : Int) = cap))) := by
+  unfold BufferedPaginatedStore.AddBin Bin.Index Bin.Count
+  have := addWithCount_spec hpage s cap grow bin.index bin.count fuel hf
+  cases hm : s.addWithCount bin.index bin.count (decide ((s.buffer.length : Int) = cap)) with
+  | none =>
+    rw [hm] at this
+    have hp : BufferedPaginatedStore.AddWithCount fuel grow (toGen s cap) bin.index bin.count = .panic := this
+    rw [hp]; rfl
+  | some s' =>
+    rw [hm] at this
+    obtain ⟨g', hg, hrel⟩ := this
+    rw [hg]
+    exact ⟨g', rfl, hrel⟩
+
 end DDS.GenPag
